@@ -2749,7 +2749,8 @@ def _iterate_flattened_values(value):
     return
 
   if isinstance(value, collections.abc.Mapping):
-    value = collections.abc.ValuesView(value)  # pytype: disable=wrong-arg-count
+    # Keys can hold references and macros, too.
+    value = list(value.keys()) + list(value.values())
 
   if isinstance(value, collections.abc.Iterable):
     for nested_value in value:
